@@ -3,6 +3,7 @@ package blockstore
 import (
 	"bytes"
 	"context"
+	"errors"
 	stdb32 "encoding/base32"
 
 	"github.com/ipfs/boxo/datastore/dshelp"
@@ -36,6 +37,34 @@ type zzRecDS struct {
 	putKeys []string
 	putVals [][]byte
 	delKeys []string
+	failAt  int // when > 0: Query yields failAt-1 entries and then an iteration error
+}
+
+var zzErrIter = errors.New("zz: iteration failed")
+
+func (r *zzRecDS) Query(ctx context.Context, q dsq.Query) (dsq.Results, error) {
+	res, err := r.MapDatastore.Query(ctx, q)
+	if err != nil || r.failAt <= 0 {
+		return res, err
+	}
+	ents, err := res.Rest()
+	if err != nil {
+		return nil, err
+	}
+	i := 0
+	return dsq.ResultsFromIterator(q, dsq.Iterator{
+		Next: func() (dsq.Result, bool) {
+			i++
+			if i == r.failAt {
+				return dsq.Result{Error: zzErrIter}, true
+			}
+			if i > r.failAt || i > len(ents) {
+				return dsq.Result{}, false
+			}
+			return dsq.Result{Entry: ents[i-1]}, true
+		},
+		Close: func() error { return nil },
+	}), nil
 }
 
 func (r *zzRecDS) Put(ctx context.Context, k ds.Key, v []byte) error {
@@ -50,6 +79,22 @@ func (r *zzRecDS) Delete(ctx context.Context, k ds.Key) error {
 }
 
 func (r *zzRecDS) Batch(ctx context.Context) (ds.Batch, error) { return ds.NewBasicBatch(r), nil }
+
+// zzViewBS makes the default blockstore a Viewer (as the flatfs/badger backed ones are), so that the identity
+// store takes its viewer path.
+type zzViewBS struct {
+	Blockstore
+	views int
+}
+
+func (v *zzViewBS) View(ctx context.Context, c cid.Cid, cb func([]byte) error) error {
+	v.views++
+	blk, err := v.Blockstore.Get(ctx, c)
+	if err != nil {
+		return err
+	}
+	return cb(blk.RawData())
+}
 
 // pool entry: one multihash with the only payload that content addressing allows for it
 type zzEnt struct {
@@ -115,9 +160,17 @@ func zzBlock(e *zzEnt, c cid.Cid) blocks.Block {
 	return b
 }
 
-// HarnessC01Step: one operation of the default blockstore (optionally wrapped in the identity store) from an
+// HarnessC01StepRead (Get/Has/GetSize/View), ...Write, ...PutMany: one operation of the default blockstore (optionally wrapped in the identity store) from an
 // arbitrary state over a pool of three multihashes, compared with a map keyed by multihash.
-func HarnessC01Step() {
+func HarnessC01StepRead() { zzStep([]int{0, 1, 2, 6, 7}) }
+
+// HarnessC01StepWrite: Put / DeleteBlock.
+func HarnessC01StepWrite() { zzStep([]int{3, 5}) }
+
+// HarnessC01StepPutMany: batched puts.
+func HarnessC01StepPutMany() { zzStep([]int{4}) }
+
+func zzStep(ops []int) {
 	ctx := context.Background()
 	sym := verifrt.Param("SYM", 2)
 	dl := verifrt.NondetRange("datalen", 0, verifrt.Param("DLEN", 0)) // entry a: the empty block included
@@ -131,7 +184,10 @@ func HarnessC01Step() {
 	pool := []*zzEnt{a, b, id}
 
 	writeThrough := verifrt.NondetBool("writeThrough")
-	noPrefix := verifrt.NondetBool("noPrefix")
+	noPrefix := false
+	if verifrt.Param("PREFIXONLY", 0) == 0 {
+		noPrefix = verifrt.NondetBool("noPrefix")
+	}
 	withID := verifrt.NondetBool("idstore")
 
 	rec := &zzRecDS{MapDatastore: ds.NewMapDatastore()}
@@ -153,14 +209,19 @@ func HarnessC01Step() {
 		opts = append(opts, NoPrefix())
 	}
 	var bs Blockstore = NewBlockstore(rec, opts...)
+	var vbs *zzViewBS
 	if withID {
+		if verifrt.NondetBool("viewerBacking") {
+			vbs = &zzViewBS{Blockstore: bs}
+			bs = vbs
+		}
 		bs = NewIdStore(bs)
 	}
 
 	// model view through the store under test: the identity store makes identity CIDs always present
 	has := func(e *zzEnt) bool { return e.present || (withID && e.ident) }
 
-	op := verifrt.NondetRange("op", 0, 6)
+	op := ops[verifrt.NondetRange("op", 0, len(ops)-1)]
 	switch op {
 	case 0: // Get
 		i, c := zzPickCid(pool, "t")
@@ -229,6 +290,13 @@ func HarnessC01Step() {
 		} else {
 			pool[i].present = false
 		}
+	case 7: // the undefined CID is never present
+		blk, err := bs.Get(ctx, cid.Undef)
+		verifrt.Assert("C01.undef-get-notfound", blk == nil && err != nil && ipld.IsNotFound(err))
+		ok, err := bs.Has(ctx, cid.Undef)
+		verifrt.Assert("C01.undef-has-false", err == nil && !ok)
+		n, err := bs.GetSize(ctx, cid.Undef)
+		verifrt.Assert("C01.undef-getsize-notfound", n == -1 && err != nil && ipld.IsNotFound(err))
 	case 6: // View (offered by the identity store)
 		verifrt.Assume(withID)
 		i, c := zzPickCid(pool, "t")
@@ -236,6 +304,9 @@ func HarnessC01Step() {
 		calls := 0
 		err := bs.(Viewer).View(ctx, c, func(p []byte) error { seen = p; calls++; return nil })
 		verifrt.Observe("view.ok", err == nil)
+		if vbs != nil && pool[i].ident {
+			verifrt.Assert("C01.idstore-view-identity-not-forwarded", vbs.views == 0)
+		}
 		if has(pool[i]) {
 			verifrt.Assert("C01.view-present", err == nil && calls == 1 && bytes.Equal(seen, pool[i].data))
 		} else {
@@ -330,5 +401,145 @@ func HarnessC01KeyMultihash() {
 	c, err := dshelp.DsKeyToCidV1(dshelp.MultihashToDsKey(mh.Multihash(m)), cid.Raw)
 	verifrt.Assert("C01.mhkey-cid-no-error", err == nil)
 	verifrt.Assert("C01.mhkey-cid-same-multihash", bytes.Equal(c.Hash(), m))
+	verifrt.Reach("end")
+}
+
+// HarnessC01AllKeys: key enumeration. Pre-state over the pool plus (optionally) a key that is not base32; every
+// stored multihash is emitted exactly once as CIDv1-raw, nothing else is emitted, the unparsable key is skipped
+// and the error function reports a complete enumeration.
+func HarnessC01AllKeys() {
+	ctx := context.Background()
+	sym := verifrt.Param("SYM", 2)
+	a := &zzEnt{m: zzMustEncode(zzDigest("da", sym, 0x10), mh.SHA2_256), data: []byte{}}
+	b := &zzEnt{m: zzMustEncode(zzDigest("db", sym, 0x10), mh.SHA2_256), data: verifrt.NondetBytes("xb", 1)}
+	verifrt.Assume(zzNeq(a.m, b.m))
+	ip := verifrt.NondetBytes("xi", 1)
+	id := &zzEnt{m: zzMustEncode(ip, mh.IDENTITY), data: ip, ident: true}
+	pool := []*zzEnt{a, b, id}
+	noPrefix := verifrt.NondetBool("noPrefix")
+	withID := verifrt.NondetBool("idstore")
+	withErr := verifrt.NondetBool("withErr")
+
+	rec := &zzRecDS{MapDatastore: ds.NewMapDatastore()}
+	for _, e := range pool {
+		if verifrt.NondetBool("present") {
+			e.present = true
+			if err := rec.MapDatastore.Put(ctx, ds.RawKey(zzRefKey(e.m, noPrefix)), e.data); err != nil {
+				panic(err)
+			}
+		}
+	}
+	if verifrt.NondetBool("junk") {
+		k := "/blocks/not-base32!"
+		if noPrefix {
+			k = "/not-base32!"
+		}
+		if err := rec.MapDatastore.Put(ctx, ds.RawKey(k), []byte{1}); err != nil {
+			panic(err)
+		}
+	}
+	var opts []Option
+	if noPrefix {
+		opts = append(opts, NoPrefix())
+	}
+	var bs Blockstore = NewBlockstore(rec, opts...)
+	if withID {
+		bs = NewIdStore(bs)
+	}
+
+	var ch <-chan cid.Cid
+	var errf func() error
+	var err error
+	if withErr {
+		ch, errf, err = bs.(AllKeysChanWithErrer).AllKeysChanWithErr(ctx)
+	} else {
+		ch, err = bs.AllKeysChan(ctx)
+	}
+	verifrt.Assert("C01.allkeys-setup-no-error", err == nil)
+	seen := make([]int, len(pool))
+	total := 0
+	for c := range ch {
+		total++
+		verifrt.Assert("C01.allkeys-emits-cidv1-raw", c.Version() == 1 && c.Type() == cid.Raw)
+		hit := false
+		for i, e := range pool {
+			if bytes.Equal(c.Hash(), e.m) {
+				seen[i]++
+				hit = true
+			}
+		}
+		verifrt.Assert("C01.allkeys-emits-only-stored-multihashes", hit)
+	}
+	for i, e := range pool {
+		if e.present {
+			verifrt.Assert("C01.allkeys-emits-each-stored-once", seen[i] == 1)
+		} else {
+			verifrt.Assert("C01.allkeys-never-emits-absent", seen[i] == 0)
+		}
+	}
+	verifrt.Observe("total", total)
+	if errf != nil {
+		verifrt.Assert("C01.allkeys-complete-enumeration-reports-nil", errf() == nil)
+	}
+	verifrt.Reach("end")
+}
+
+// HarnessC01AllKeysErr: the datastore iteration fails after p of the three stored keys: the p keys are emitted,
+// the channel is closed, and AllKeysChanWithErr's error function reports the failure.
+func HarnessC01AllKeysErr() {
+	ctx := context.Background()
+	a := &zzEnt{m: zzMustEncode(zzDigest("da", 0, 0x10), mh.SHA2_256), data: []byte{}}
+	b := &zzEnt{m: zzMustEncode(zzDigest("db", 0, 0x40), mh.SHA2_256), data: []byte{7}}
+	id := &zzEnt{m: zzMustEncode([]byte{9}, mh.IDENTITY), data: []byte{9}, ident: true}
+	pool := []*zzEnt{a, b, id}
+	noPrefix := verifrt.NondetBool("noPrefix")
+	withID := verifrt.NondetBool("idstore")
+	withErr := verifrt.NondetBool("withErr")
+	rec := &zzRecDS{MapDatastore: ds.NewMapDatastore()}
+	for _, e := range pool {
+		if err := rec.MapDatastore.Put(ctx, ds.RawKey(zzRefKey(e.m, noPrefix)), e.data); err != nil {
+			panic(err)
+		}
+	}
+	p := verifrt.NondetRange("failAfter", 0, len(pool))
+	rec.failAt = p + 1
+	var opts []Option
+	if noPrefix {
+		opts = append(opts, NoPrefix())
+	}
+	var bs Blockstore = NewBlockstore(rec, opts...)
+	if withID {
+		bs = NewIdStore(bs)
+	}
+	var ch <-chan cid.Cid
+	var errf func() error
+	var err error
+	if withErr {
+		ch, errf, err = bs.(AllKeysChanWithErrer).AllKeysChanWithErr(ctx)
+	} else {
+		ch, err = bs.AllKeysChan(ctx)
+	}
+	verifrt.Assert("C01.allkeys-setup-no-error", err == nil)
+	seen := make([]int, len(pool))
+	total := 0
+	for c := range ch {
+		total++
+		hit := false
+		for i, e := range pool {
+			if bytes.Equal(c.Hash(), e.m) {
+				seen[i]++
+				hit = true
+			}
+		}
+		verifrt.Assert("C01.allkeys-emits-only-stored-multihashes", hit)
+	}
+	for i := range pool {
+		verifrt.Assert("C01.allkeys-emits-no-duplicates", seen[i] <= 1)
+	}
+	verifrt.Assert("C01.allkeys-emits-keys-before-failure", total == p)
+	if errf != nil {
+		e := errf()
+		verifrt.Assert("C01.allkeys-iteration-error-reported", e != nil && errors.Is(e, zzErrIter))
+	}
 	verifrt.Reach("end")
 }
